@@ -13,6 +13,9 @@ Idle == {<<600, 600>>, <<600, 1500>>, <<1500, 0>>, <<0, 900>>}   \* <<client, se
 Case(w, a, p, lo, idl) == [who |-> w, at |-> a, parked |-> p, loss |-> lo, idle_cli |-> idl[1], idle_srv |-> idl[2]]
 Cases == {Case(w, a, p, lo, idl) : w \in Who \ {"none"}, a \in At, p \in Parked, lo \in Loss, idl \in {<<1500, 1500>>}}
          \cup {Case("none", 0, p, "none", idl) : p \in {"none", "streams"}, idl \in Idle}
+         \* closes in the middle of a transfer over a reordering, lossy network: streams whose FIN overtook earlier data,
+         \* retransmissions in flight, acknowledgements outstanding
+         \cup {Case(w, a, "none", "reorder", <<1500, 1500>>) : w \in {"cli", "srv"}, a \in {70, 75, 80, 85, 90, 100, 110, 130}}
 GenInit == done = FALSE
 GenNext == ~done /\ done' = TRUE
 EmitGen == done => \A cse \in Cases : PrintT(<<"GEN", ToJson(cse)>>)
